@@ -10,7 +10,7 @@
                         was visible before has the value it had: what the block bound is gone, what it
                         shadowed is back.
   * `loop_var_scoped`   the same for a whole {foreach}/{for}: the loop variable and its helpers
-                        (`x__index`, `x__lastIndex`) are visible in the body only.
+                        (`x.index`, `x.lastIndex`) are visible in the body only.
   * `block_cmd_scoped`  every command except {let} leaves all existing frames — the current one
                         included — exactly as they were (only `let` binds in the current frame).
   * `caller_env_unchanged_by_call`  a call returns text only: nothing the callee binds is visible to the
